@@ -13,7 +13,7 @@ objects, isinstance(x, S) / isinstance(x, (S, T)) / not isinstance inside querie
 class each object was created as.
 """
 import itertools
-from pony.orm import Database, Required, Optional, Set, Discriminator, db_session, select, ObjectNotFound, rollback, flush
+from pony.orm import Database, Required, Optional, Set, Discriminator, db_session, select, exists, count, ObjectNotFound, rollback, flush
 from pony.orm import core
 
 # ----------------------------------------------------------------------------------------------- hierarchies
@@ -306,6 +306,34 @@ class Checker:
             if bad: self.fail('isinstance', 'isinstance on the loaded objects disagrees with the stored classes', det, bad, [])
         return ('isinstance', c, classes, neg, q)
 
+    def nested_query(self, c, s, form, as_string):
+        """Entity.select / exists(lambda ...) over class s NESTED in a query over class c (or over the holders): the sub-query's table is
+        joined lazily, by the first use of the lambda's variable — pk-only (`s == x`, `s.id == x.id`), attribute first, or no use at all.
+        Ground truth: the stored classes (Python isinstance)."""
+        h, E, H, w = self.h, self.E, self.H, self.w
+        root = h['root'][c]
+        src, shape = NESTED_FORMS[form]
+        env = {'R': E[c], 'S': E[s], 'H': H, 'select': select, 'exists': exists, 'count': count}
+        q = select(src, env) if as_string else eval('select(%s)' % src, env)
+        rows = q[:]
+        det = [form, src, self.name(c), self.name(s), 'string' if as_string else 'generator']
+        both = [pk for pk in self.extent(c) if is_sub(h, w.cls[(root, pk)], s)]
+        self.ctx.count('nested-form:' + form)
+        if shape == 'objects':
+            return self.check_set('nested-subquery', rows, root, both, det)
+        if shape == 'counts':
+            got = sorted((int(pk), int(n)) for pk, n in rows)
+            exp = sorted((pk, 1 if pk in set(both) else 0) for pk in self.extent(c))
+        else:   # holders whose many-to-one reference is an instance of s
+            got = sorted(o.id for o in rows)
+            exp = sorted(hid for hid, v in w.holders.items() if v['mref'] is not None and is_sub(h, w.cls[(0, v['mref'])], s))
+        self.ctx.case(['nested', h['bases'], h['mode']] + det, kind='oracle:set:nested-subquery')
+        if got != exp:
+            self.fail('nested-subquery', 'a sub-query over an entity nested in another query (Entity.select/exists(lambda)) does not see exactly the objects of that entity and its subclasses',
+                      det, got, exp)
+            return False
+        return True
+
     # ---- steps (each runs inside the caller's db_session)
     def step(self, rng, kind):
         """one access path; an exception of the real code on a path where the object exists is a failure of the property, not of the harness"""
@@ -316,11 +344,11 @@ class Checker:
             self.broken = True
             return None
 
-    def step_call(self, f):
+    def step_call(self, f, kind='isinstance'):
         try:
             return f()
         except Exception as e:
-            self.fail('isinstance', 'an isinstance query raised %s' % type(e).__name__, str(e)[:200], 'raised ' + type(e).__name__, 'the selected objects')
+            self.fail(kind, 'an %s query raised %s' % (kind, type(e).__name__), str(e)[:200], 'raised ' + type(e).__name__, 'the selected objects')
             self.broken = True
             return None
 
@@ -394,6 +422,11 @@ class Checker:
                 objs = select('x for hh in H for x in hh.many', {'H': H})[:]
                 exp = sorted({pk for v in w.holders.values() for pk in v['many']})
             self.check_set(kind, objs, 0, exp, [])
+        elif kind == 'nested-subquery':
+            s_ = rng.randrange(n)
+            tree = [c for c in range(n) if h['root'][c] == h['root'][s_]]
+            form = rng.choice([f for f, v in NESTED_FORMS.items() if v[1] != 'holders' or h['root'][s_] == 0])
+            self.nested_query(rng.choice(tree), s_, form, rng.random() < 0.3)
         elif kind == 'isinstance':
             c = rng.randrange(n)
             classes = [rng.randrange(n) for _ in range(rng.choice([1, 1, 2, 3]))]
@@ -402,13 +435,53 @@ class Checker:
             raise ValueError(kind)
 
 
+# nested sub-queries over S inside a query over R (or the holders H); by the FIRST use of the lambda's variable:
+NESTED_FORMS = {
+    'exists-eq':          ('x for x in R if S.exists(lambda s: s == x)', 'objects'),                         # pk-only
+    'exists-pk':          ('x for x in R if S.exists(lambda s: s.id == x.id)', 'objects'),                   # pk-only
+    'in-select-true':     ('x for x in R if x in S.select(lambda s: True)', 'objects'),                      # no use
+    'in-select':          ('x for x in R if x in S.select()', 'objects'),                                    # no lambda
+    'count-select-eq':    ('(x.id, count(S.select(lambda s: s == x))) for x in R', 'counts'),                # pk-only, aggregated
+    'select-count-pk':    ('x for x in R if S.select(lambda s: s.id == x.id).count() > 0', 'objects'),       # pk-only
+    'exists-attr-first':  ('x for x in R if S.exists(lambda s: s.a >= 0 and s == x)', 'objects'),            # attribute, then pk
+    'exists-pk-first':    ('x for x in R if S.exists(lambda s: s == x and s.a >= 0)', 'objects'),            # pk, then attribute
+    'exists-attr':        ('x for x in R if S.exists(lambda s: s.a == x.a)', 'objects'),                     # attribute only
+    'exists-generator':   ('x for x in R if exists(s for s in S if s == x)', 'objects'),                     # control: generator sub-query
+    'in-subselect':       ('x for x in R if x in select(s for s in S)', 'objects'),                          # control
+    'holder-exists-eq':   ('hh for hh in H if S.exists(lambda s: s == hh.mref)', 'holders'),                 # pk-only, through a reference
+    'holder-in-select':   ('hh for hh in H if hh.mref in S.select(lambda s: True)', 'holders'),              # no use, through a reference
+}
+
+
+def nested_sweep(ctx, h, db, E, H, w):
+    """for every class s: the sub-query forms over s, nested in a query over the root (all forms) and over another class of the tree"""
+    rng = ctx.rng
+    n = h['n']
+    ck = Checker(ctx, h, db, E, H, w); ck.trace.append('nested-sweep')
+    k = 0
+    with db_session:
+        for s in range(n):
+            root = h['root'][s]
+            tree = [c for c in range(n) if h['root'][c] == root]
+            for form, (src, shape) in NESTED_FORMS.items():
+                if shape == 'holders' and root != 0: continue
+                if ck.broken: return
+                k += 1
+                ck.step_call(lambda: ck.nested_query(root, s, form, as_string=(k % 3 == 0)), 'nested-subquery')
+            other = rng.choice(tree)
+            for form in rng.sample([f for f, v in NESTED_FORMS.items() if v[1] != 'holders'], 4):
+                if ck.broken: return
+                k += 1
+                ck.step_call(lambda: ck.nested_query(other, s, form, as_string=(k % 3 == 0)), 'nested-subquery')
+
+
 def isinstance_py(h, r, classes):
     return any(is_sub(h, r, c) for c in classes)
 
 
 STEPS = ['index', 'index', 'get-pk', 'get-attr', 'by-sql', 'get-by-sql', 'index-miss', 'select', 'select', 'select-filter', 'select-all-method',
          'ref', 'holder-first-ref', 'sub-ref', 'mref', 'mref', 'holder-first-mref', 'm2m-items', 'm2m-items-then-touch', 'o2m-items', 'query-ref', 'query-m2m', 'query-o2m',
-         'isinstance', 'isinstance', 'isinstance']
+         'isinstance', 'isinstance', 'isinstance', 'nested-subquery', 'nested-subquery']
 
 
 def one_world(ctx, h, reqs, checks):
@@ -432,6 +505,7 @@ def one_world(ctx, h, reqs, checks):
                     r = ck.step(rng, rng.choice(STEPS))
                     register_isinstance(h, code, cmap, r, reqs, checks)
         isinstance_sweep(ctx, h, db, E, H, w, code, cmap, reqs, checks)
+        nested_sweep(ctx, h, db, E, H, w)
         refine_tie(ctx, h, db, E, code, w, reqs, checks)
     finally:
         db.disconnect()
